@@ -821,7 +821,7 @@ def run(ctx):
         for t in ob["trace"]["interp"]:
             ctx.traces += 1
             L2.append(coq_interp_case(t, 0 if t["meth"] == "nn" else 1, t["out"]))
-    texts += [(n, tx, sh, "traced gradient_resampler_indices") for n, tx, sh in coq_files("c09_tr_idx", "search_case", "chk_indices", L1)]
+    texts += [(n, tx, sh, "traced gradient_resampler_indices") for n, tx, sh in coq_files("c09_tr_idx", "search_case", "chk_indices_traced", L1)]
     texts += [(n, tx, sh, "traced block interpolators") for n, tx, sh in coq_files("c09_tr_interp", "interp_case", "chk_interp_both", L2)]
 
     # ---------------- correspondence + oracle: synthetic direct calls
